@@ -19,6 +19,7 @@ type sessionFam struct {
 	grace           time.Duration
 	ended           bool
 	drained         bool
+	shutdownSeen    bool
 	snap            map[string]string // alias -> state at end of the scripted part
 	aliveAfterDrain []string
 }
@@ -42,13 +43,9 @@ func graceFor(o *OptSpec) time.Duration {
 	if ut == 0 {
 		ut = 10000
 	}
-	g := 30000
-	if 2*(pi+pt) > g {
-		g = 2 * (pi + pt)
-	}
-	if ut > g {
-		g = ut
-	}
+	// a vanished client is noticed at the latest by the heartbeat (two periods to be
+	// safe), a polling transport then may wait its 30 s close timeout, a candidate its upgrade timeout
+	g := 2*(pi+pt) + 30000 + ut
 	return time.Duration(g+1000) * time.Millisecond
 }
 
@@ -105,14 +102,9 @@ func (f *sessionFam) endPhase(w *World) {
 		c := f.clients[n]
 		c.stopped = true
 		c.closed = true
-		if c.pollResp != nil {
-			c.pollResp.cancel()
-		}
-		if c.postResp != nil {
-			c.postResp.cancel()
-		}
 		for _, r := range w.resps {
 			if r.Client == n && !r.Returned {
+				r.Aborted = true
 				r.cancel()
 			}
 		}
@@ -195,6 +187,43 @@ func (f *sessionFam) quiescent(w *World) {
 			sig = "underflow"
 		}
 		w.violate("C04", "count-equals-table", sig, fmt.Sprintf("at quiescence t=%v ClientsCount()=%d but Clients() has %d keys", simrt.Now(), cnt, len(keys)))
+	}
+	// C12: the first quiescent point after a shutdown returned: table empty?
+	if !f.shutdownSeen {
+		for _, e := range w.Evs {
+			if e.Kind == "app-server-close-ret" || e.Kind == "app-http-close-ret" {
+				f.shutdownSeen = true
+				k := append([]string(nil), keys...)
+				sort.Strings(k)
+				w.recx(Ev{Kind: "registry-after-shutdown", N: int64(cnt), P: k})
+				break
+			}
+		}
+	}
+	// C11: at most one poll and one data request outstanding per session
+	pend := map[string][2]int{}
+	for _, r := range w.resps {
+		if r.Returned || r.Hijacked || r.h3 != nil || r.NWH > 0 {
+			continue
+		}
+		if sid, ok := pollingReq(r); ok && sid != "" {
+			p := pend[sid]
+			if r.Method == "GET" {
+				p[0]++
+			} else if r.Method == "POST" {
+				p[1]++
+			}
+			pend[sid] = p
+		}
+	}
+	for sid, p := range pend {
+		if p[0] > 1 || p[1] > 1 {
+			kind := "poll"
+			if p[1] > 1 {
+				kind = "data"
+			}
+			w.violate("C11", "one-outstanding-request", kind, fmt.Sprintf("at quiescence t=%v session %s has %d poll and %d data requests outstanding", simrt.Now(), aliasOfSid[sid], p[0], p[1]))
+		}
 	}
 	// abstract state for the evidence
 	var st []string
